@@ -1,6 +1,7 @@
 import SFV.Proofs.GaussNM
 import SFV.Proofs.Physical
 import SFV.Proofs.FockTensor
+import SFV.Proofs.Bridge
 
 /-!
 # C07 — every simulated state is physical and gates conserve what they must
@@ -50,6 +51,30 @@ theorem uncertainty_gate {n : Type} [Fintype n] [DecidableEq n] (V Ω S : Matrix
 theorem uncertainty_channel' {n : Type} [Fintype n] [DecidableEq n] (V Ω X Y : Matrix n n ℝ)
     (hY : (cplx Y + Complex.I • cplx (Ω - X * Ω * Xᵀ)).PosSemidef) (h : Uncertainty V Ω) :
     Uncertainty (X * V * Xᵀ + Y) Ω := uncertainty_channel V Ω X Y hY h
+
+/-- **squeezers, rotations and beamsplitters preserve the uncertainty relation** — the chain closed:
+the simulator's entrywise update refines `linMap rows` (C01), `linMap rows` is the matrix congruence
+`S V Sᵀ` (`covMatrix_linMap`), the rows are symplectic, and symplectic congruence preserves
+`V + iΩ ⪰ 0`.  All register sizes `n`, all target positions, all parameter values. -/
+theorem squeeze_uncertainty (n k : Nat) (hk : k < n) (c s ch sh : ℝ) (hcs : c * c + s * s = 1)
+    (hh : ch * ch - sh * sh = 1) (V : XP ℝ) (hxx : ∀ i j, V.xx i j = V.xx j i) (hpp : ∀ i j, V.pp i j = V.pp j i)
+    (h : Uncertainty (covMatrix n V) (omegaMatrix n)) :
+    Uncertainty (covMatrix n (linMap (squeezeRows k c s ch sh) V)) (omegaMatrix n) :=
+  linMap_uncertainty n _ (rows1_supported n k hk _ _ _ _) (squeezeRows_symplectic k c s ch sh hcs hh) V hxx hpp h
+
+theorem rotation_uncertainty (n k : Nat) (hk : k < n) (c s : ℝ) (hcs : c * c + s * s = 1)
+    (V : XP ℝ) (hxx : ∀ i j, V.xx i j = V.xx j i) (hpp : ∀ i j, V.pp i j = V.pp j i)
+    (h : Uncertainty (covMatrix n V) (omegaMatrix n)) :
+    Uncertainty (covMatrix n (linMap (rotRows k c s) V)) (omegaMatrix n) :=
+  linMap_uncertainty n _ (rows1_supported n k hk _ _ _ _) (rotRows_symplectic k c s hcs) V hxx hpp h
+
+theorem beamsplitter_uncertainty (n k l : Nat) (hk : k < n) (hl : l < n) (hkl : k ≠ l) (c s ct sn : ℝ)
+    (hcs : c * c + s * s = 1) (hts : ct * ct + sn * sn = 1)
+    (V : XP ℝ) (hxx : ∀ i j, V.xx i j = V.xx j i) (hpp : ∀ i j, V.pp i j = V.pp j i)
+    (h : Uncertainty (covMatrix n V) (omegaMatrix n)) :
+    Uncertainty (covMatrix n (linMap (bsRows k l c s ct sn) V)) (omegaMatrix n) :=
+  linMap_uncertainty n _ (bsRows_supported n k l hk hl c s ct sn) (bsRows_symplectic k l hkl c s ct sn hcs hts)
+    V hxx hpp h
 
 /-- **passive gates conserve photon number**: beamsplitter (second moments and amplitudes) -/
 theorem beamsplitter_conserves {K : Type} [CommRing K] (st : GS K) (hI : NMInv st) (c s ct sn : K) (k l : Nat)
